@@ -93,7 +93,20 @@ type lqRow struct {
 }
 
 func readLQ(path string) ([]lqRow, error) {
-	db, err := sql.Open("sqlite3", "file:"+path+"?mode=ro")
+	// A killed writer can leave a hot journal: a read-only open cannot roll it back ("attempt to write a
+	// readonly database"). Read a private copy of the database and its journal files, opened read-write,
+	// so that the job's own files are never touched by the monitor.
+	tmp, err := os.MkdirTemp(filepath.Dir(path), "lqcopy-")
+	if err != nil {
+		return nil, err
+	}
+	defer os.RemoveAll(tmp)
+	for _, suffix := range []string{"", "-journal", "-wal", "-shm"} {
+		if b, err := os.ReadFile(path + suffix); err == nil {
+			os.WriteFile(filepath.Join(tmp, "lq.db"+suffix), b, 0o644)
+		}
+	}
+	db, err := sql.Open("sqlite3", "file:"+filepath.Join(tmp, "lq.db"))
 	if err != nil {
 		return nil, err
 	}
